@@ -27,6 +27,7 @@ m={
    "baseline_off_cmd":"cd /repo && cargo test --workspace --no-fail-fast --offline",
    "source_commits":["76eb74c","e97357c","5c100a2"],"add_only":True},
  "engines":[
+   {"name":"coq-Q","path":"coq/Q","serves_properties":["C17"],"kind_free_text":"Coq 8.16.1 byte-level model of src/queue/flat.rs and list model of boxed.rs; refinement theorem over all op sequences; harness/q runs both real files side by side"},
    {"name":"coq-T","path":"coq/T","serves_properties":["C07","C08","C09","C10","C19"],"kind_free_text":"Coq 8.16.1 model of src/timers/mod.rs + Core time handling; theorems by invariant/induction over all API histories; translator-regenerated arithmetic; correspondence harness/t"},
  ],
  "checks":checks,
